@@ -162,7 +162,8 @@ Lemma do_resize_grow : forall s sz fs, (sz <=? csize s) = false ->
   let s1 := resize_fan s sz fs in
   replicas (fst R) = replicas (fst (handle_error_nolock s1 (resize_errs s fs)))
   /\ w (fst R) = w s1
-  /\ csize (fst R) = (if res_eqb (snd R) ROk then sz else csize s).
+  /\ csize (fst R) = (if res_eqb (snd R) ROk then sz else csize s)
+  /\ (flt fs 0%nat KFeResize = true -> snd R <> ROk).
 Proof.
   intros s sz fs H. cbv zeta. rewrite (do_resize_unfold s sz fs H). cbv zeta.
   set (s1 := resize_fan s sz fs). set (errs := resize_errs s fs).
@@ -171,7 +172,7 @@ Proof.
   assert (W2 : w (fst (handle_error_nolock s1 errs)) = w s1) by apply w_handle_error.
   destruct (match errs with [] => false | _ => negb (snd (handle_error_nolock s1 errs)) end);
     [|destruct (flt fs 0%nat KFeResize)]; cbn [fst snd res_eqb];
-    (split; [reflexivity|split; [exact W2|try exact C2; reflexivity]]).
+    (split; [reflexivity|split; [exact W2|split; [try exact C2; reflexivity|intros X; discriminate]]]).
 Qed.
 
 Lemma c16_step_model : forall rf0 n s e r0 ef0 r0',
@@ -185,11 +186,11 @@ Proof.
   - rewrite (do_resize_not_growing s newsize fs Hle). cbn [fst snd].
     rewrite not_ack by discriminate. rewrite untouched_same_state. cbn [andb o_size observe]. apply Z.eqb_refl.
   - pose proof (do_resize_grow s newsize fs Hle) as G. cbv zeta in G.
-    destruct (do_resize s newsize fs) as [s' r]. cbn [fst snd] in *. destruct G as [Rs [Ws Cs]].
+    destruct (do_resize s newsize fs) as [s' r]. cbn [fst snd] in *. destruct G as [Rs [Ws [Cs Fe]]].
     set (s1 := resize_fan s newsize fs) in *.
     assert (H1 : struct_ok s1) by (eapply sst_struct; [apply sst_resize_fan|exact H]).
     assert (R1 : replicas s1 = replicas s) by (apply (sst_resize_fan s newsize fs)).
-    apply andb_true_intro. split; [apply andb_true_intro; split|].
+    apply andb_true_intro. split; [apply andb_true_intro; split; [apply andb_true_intro; split|]|].
     + (* the replicas that did not fail have the new size *)
       apply forallb_forall. intros a Ha. destruct (flt fs a KResize) eqn:F; [reflexivity|].
       assert (Hlt : (a < n)%nat) by (apply Hk; apply in_service_keys; exact Ha).
@@ -200,6 +201,8 @@ Proof.
     + (* the volume size *)
       unfold is_ack. cbn [o_res o_size observe]. rewrite Cs.
       destruct r; cbn [res_class res_eqb]; apply Z.eqb_refl.
+    + (* a grow the frontend refuses is not acknowledged *)
+      destruct (flt fs 0%nat KFeResize) eqn:F; [|reflexivity]. apply not_ack. apply Fe. reflexivity.
     + (* who is still in service *)
       apply forallb_forall. intros a Ha. rewrite Rs.
       assert (Ha1 : In a (in_service (replicas s1))) by (rewrite R1; exact Ha).
